@@ -304,6 +304,14 @@ func (mgr *GCMgr) gc(bkt *Bucket, startChunkID, endChunkID int, merge bool) {
 						}
 					}
 				}
+			} else if hintit, _ := bkt.hints.collisions.get(ki.KeyHash, ki.StringKey); hintit != nil {
+				// the tree slot of this key hash was removed by the tombstone of another key
+				// with the same hash; the collision table still holds this key's current record
+				fileState.NumNotInHtree++
+				if hintit.Pos == oldPos {
+					isNewest = true
+					meta.ValueHash = hintit.Vhash
+				}
 			} else {
 				// when rebuiding the HTree, the deleted recs are removed from HTree
 				// we are not sure whether the `set rec` is still in datafiles while `auto GC`, so we need to write a copy of `del rec` in datafile.
